@@ -181,7 +181,7 @@ func c09r3(c *Ctx) {
 					return false
 				}
 				for _, s := range sites {
-					if fn.ObjOf(sel.X) == s.state {
+					if denotes(fn, fn.ObjOf(sel.X), s.state) {
 						return true
 					}
 				}
